@@ -7,6 +7,18 @@ NOTES = ("All checks: ./check <ID> quick|thorough; exit 0 held / 1 VIOLATION / 2
          "every run. known_findings.json lists open findings and fixed: records; replays/<ID>/ holds committed regression cases.")
 NOT_APPLICABLE = {}
 CHECKS = {
+    "C10": {
+        "technique": "bounded exhaustive enumeration against a reference evaluator + property-based sampling: every enumerated predicate expression (atoms, chains <= 3, negations, binary combinations) is evaluated on every location stack of a bounded universe and compared with an independent evaluator written from the tutorial; documented identities and boolean laws compared as truth tables; deeper expressions / stacks sampled by Hypothesis; end-to-end part with marker loaders and a spy provider",
+        "text": "Exploration with an exhaustive part (quick: 3 814 expressions x 1 329 stacks; thorough: 8 831 x 21 714) plus sampled and end-to-end parts; documented examples are fixed probes.",
+        "note": "Trusted: the reference evaluator (vkit/c10_helpers.py). Unspecified (counted): bare list/dict predicates vs parametrised location types, abstract classes vs parametrised generics, strings on function-field locations; re.Pattern predicates and data protocols are not generated.",
+        "engine": "enumeration+hypothesis",
+    },
+    "C12": {
+        "technique": "schedule enumeration and PCT-style random schedule generation with a harness-owned deterministic thread scheduler (sys.monitoring / sys.settrace line events in the retort files as yield points; one thread released at a time); oracle = single-threaded reference outcomes during and after the race; hangs need confirmation in a fresh interpreter",
+        "text": "Exploration of interleavings: exhaustive single-preemption sweeps (all yield points / conflict lines), two-preemption products over conflict lines, Hypothesis-generated programs with PCT schedules; 7 model families incl. recursive and mutually recursive ones, 2-3 threads.",
+        "note": "Limits: Python statement granularity, GIL build, <= 3 threads, <= 2 systematic preemptions; wall clock is used only as a liveness fallback, never as a verdict (budget overruns and unconfirmed hangs are inconclusive counters).",
+        "engine": "vkit/sched.py + hypothesis",
+    },
     "C09": {
         "technique": "bounded exhaustive enumeration + property-based sampling against a reference model: all recipes up to length 3 (quick) / 4 (thorough) over a 21-entry core alphabet and up to 2 / 3 over the full 70-entry alphabet, longer recipes sampled by Hypothesis with a block grammar; oracle = independent linear chain-of-responsibility interpreter comparing the type-exact value and the exact per-request consultation log",
         "text": "Exploration with exhaustive short-recipe part: marker functions make the composition order readable from the result; a logging Provider records every consultation; extend(), replace(), class-level recipes (MRO), nested and bound retorts, loaders and dumpers are covered.",
